@@ -53,8 +53,11 @@ def plan(tier, seed):
             shards.append({"interp": interp, "leg": "templates", "what": "referents", "seed": seed, "start": 0,
                            "count": 12000, "runs": 3, "budget_s": 1200})
             for s in range(3):
+                # every line of the analysis on 3.12 (sys.monitoring); a sample per observation where the
+                # failpoint has to be raised from a sys.settrace callback (see vlib/failpoints.py)
                 shards.append({"interp": interp, "leg": "templates", "what": "faults", "seed": seed, "start": s * 400,
-                               "count": 400, "runs": 1, "budget_s": 1200, "per_obs": 0, "obs_stride": 2})
+                               "count": 400, "runs": 1, "budget_s": 1200, "per_obs": 0 if interp == "3.12" else 60,
+                               "obs_stride": 2})
             shards.append({"interp": interp, "leg": "random", "what": "faults", "seed": seed, "start": 0,
                            "count": 300, "runs": 1, "budget_s": 1200, "per_obs": 25, "obs_stride": 2})
             shards.append({"interp": interp, "leg": "switch", "what": "switch", "seed": seed, "steps": 1500})
@@ -150,6 +153,9 @@ def worker(spec):
         import random as _random
         frng = _random.Random(spec.get("seed", 0) * 977 + 5)
 
+    import os as _os
+    TRACE_TO = _os.environ.get("C20_TRACE")
+
     def observe_faults(run, x, value, info):
         if info["step"] % spec.get("obs_stride", 1):
             return
@@ -185,7 +191,15 @@ def worker(spec):
             if per and len(ks) > per:
                 ks = sorted(frng.sample(ks, per))
             for k in ks:
+                if not failpoints.injection_budget_left():
+                    if not state.get("cap_noted"):
+                        state["cap_noted"] = True
+                        res.count("settrace_injection_budget_reached")
+                    return
                 fault = failpoints.InjectedFault("k=%d" % k)
+                if TRACE_TO:
+                    with open(TRACE_TO, "a") as _tf:
+                        _tf.write("%r step=%r frame=%d k=%d/%d\n" % (state["label"], info["step"], i, k, n))
                 out, raised, _ = fp.call(call, k, fault)
                 # the trickery attempt failed iff the fallback routine was entered
                 gate["escaped"] = fault if (fp.fired and gate["fallback_entered"]) else None
